@@ -58,6 +58,99 @@ std::string build(const FmmCase& c, long blockSize, long envBlock, int ogpp, Bui
 
 int flagsAll(){ return 63; }
 
+// values of every cell (by level/coordinate) and every particle (by index), for comparisons between trees
+struct TreeValues {
+    std::map<std::pair<int, Coord>, std::pair<gf::Val, gf::Val>> cells;
+    std::vector<gf::Val> particles;
+};
+TreeValues collect(Tree& tree, size_t nbParticles){
+    TreeValues tv; tv.particles.assign(nbParticles, gf::zero());
+    tree.applyToAllCells([&](const long level, auto&& header, auto&& m, auto&& l){
+        tv.cells[std::make_pair(int(level), fh::hcoord<decltype(header), Dim>(header))] = std::make_pair(m->get(), l->get());
+    });
+    tree.applyToAllLeaves([&](auto&& header, const long int* idx, auto&& /*data*/, auto&& rhs){
+        for(long i = 0 ; i < header.nbParticles ; ++i){
+            gf::Val v; for(int k = 0 ; k < gf::NEVAL ; ++k) v.v[k] = rhs[size_t(k)][i]; v.cnt = rhs[gf::NEVAL][i];
+            if(idx[i] >= 0 && size_t(idx[i]) < nbParticles) tv.particles[size_t(idx[i])] = v;
+        }
+    });
+    return tv;
+}
+
+// C16: lookups against the model
+std::string checkLookups(Tree& tree, const rm::ModelTree& mt, const FmmCase& c, long& nbQueries, long& nbGapQueries){
+    const int H = mt.H;
+    std::ostringstream os;
+    for(int l = 0 ; l < H ; ++l){
+        std::set<long> present;
+        for(const Coord& x : mt.cells[size_t(l)]) present.insert(rm::morton(Dim, x, l));
+        const long upper = 1L << (Dim * l);
+        std::vector<long> qs;
+        if(upper <= 4096){ for(long q = -2 ; q <= upper + 2 ; ++q) qs.push_back(q); }
+        else{
+            for(long p : present){ qs.push_back(p); qs.push_back(p - 1); qs.push_back(p + 1); }
+            for(long q : c.queries){ qs.push_back(q < 0 ? q : (q * 2654435761L) % (upper + 3)); }
+            qs.push_back(-1); qs.push_back(upper); qs.push_back(upper + 1); qs.push_back(0); qs.push_back(upper - 1);
+        }
+        const auto& groups = tree.getCellGroupsAtLevel(l);
+        for(long q : qs){
+            nbQueries += 1;
+            const bool exp = present.count(q) != 0;
+            if(!exp && !groups.empty() && q > groups.front().getStartingSpacialIndex() && q < groups.back().getEndingSpacialIndex()) nbGapQueries += 1;
+            auto found = tree.findGroupWithCell(l, q);
+            if(bool(found) != exp){ os << "findGroupWithCell(level " << l << ", index " << q << ") " << (found ? "returned a handle for an absent cell" : "found nothing for an existing cell"); return os.str(); }
+            if(found){
+                const auto& grp = found->first.get(); const long pos = found->second;
+                if(pos < 0 || pos >= grp.getNbCells() || grp.getCellSpacialIndex(pos) != q){ os << "findGroupWithCell(level " << l << ", index " << q << ") returned a wrong position"; return os.str(); }
+            }
+            // per group accessors agree with a linear scan
+            for(const auto& grp : groups){
+                long scan = -1, scanParent = -1;
+                for(long i = 0 ; i < grp.getNbCells() ; ++i){
+                    if(scan < 0 && grp.getCellSpacialIndex(i) == q) scan = i;
+                    if(scanParent < 0 && (grp.getCellSpacialIndex(i) >> Dim) == q) scanParent = i;
+                }
+                auto e = grp.getElementFromSpacialIndex(q);
+                if((e ? *e : -1) != scan){ os << "getElementFromSpacialIndex(" << q << ") at level " << l << " disagrees with a linear scan"; return os.str(); }
+                auto ep = grp.getElementFromParentIndex(tree.getSpacialSystem(), q);
+                if((ep ? *ep : -1) != scanParent){ os << "getElementFromParentIndex(" << q << ") at level " << l << " disagrees with a linear scan"; return os.str(); }
+            }
+            if(l == H - 1){
+                auto fl = tree.findGroupWithLeaf(q);
+                if(bool(fl) != exp){ os << "findGroupWithLeaf(" << q << ") " << (fl ? "returned a handle for an absent leaf" : "found nothing for an existing leaf"); return os.str(); }
+                if(fl){
+                    const auto& grp = fl->first.get(); const long pos = fl->second;
+                    if(pos < 0 || pos >= grp.getNbLeaves() || grp.getLeafSpacialIndex(pos) != q){ os << "findGroupWithLeaf(" << q << ") returned a wrong position"; return os.str(); }
+                }
+                for(const auto& grp : tree.getParticleGroups()){
+                    long scan = -1;
+                    for(long i = 0 ; i < grp.getNbLeaves() ; ++i) if(scan < 0 && grp.getLeafSpacialIndex(i) == q) scan = i;
+                    auto e = grp.getElementFromSpacialIndex(q);
+                    if((e ? *e : -1) != scan){ os << "particle group getElementFromSpacialIndex(" << q << ") disagrees with a linear scan"; return os.str(); }
+                }
+            }
+        }
+    }
+    return "";
+}
+
+// C17: bulk export
+std::string checkExport(Tree& tree, const Built& b, const TreeValues& tv){
+    const long N = long(b.mt.leafOf.size());
+    auto data = tree.getAllParticlesData();
+    auto rhs = tree.getAllParticlesRhs();
+    for(long i = 0 ; i < N ; ++i){
+        for(long v = 0 ; v < NbData ; ++v){
+            const double got = double(data[size_t(i)][size_t(v)]);
+            if(got != b.in.rows[size_t(i)][size_t(v)]) return "getAllParticlesData()[" + std::to_string(i) + "][" + std::to_string(v) + "] is " + std::to_string(got) + " expected " + std::to_string(b.in.rows[size_t(i)][size_t(v)]);
+        }
+        for(int k = 0 ; k < gf::NEVAL ; ++k) if(rhs[size_t(i)][size_t(k)] != tv.particles[size_t(i)].v[k]) return "getAllParticlesRhs()[" + std::to_string(i) + "][" + std::to_string(k) + "] differs from the result stored for that particle";
+        if(rhs[size_t(i)][gf::NEVAL] != tv.particles[size_t(i)].cnt) return "getAllParticlesRhs()[" + std::to_string(i) + "] count differs";
+    }
+    return "";
+}
+
+
 // Runs the (possibly staged) execution and evaluates the oracles selected by `prop`.
 std::string propSingle(const FmmCase& c, const std::string& prop){
     if(c.dim != Dim) return "SKIP wrong dimension";
@@ -77,6 +170,9 @@ std::string propSingle(const FmmCase& c, const std::string& prop){
     const bool wantValues = (prop == "C01" || prop == "C12");
     const bool wantLog = (prop == "C01" || prop == "C12");
     const bool wantArgs = (prop == "C02");
+    const bool wantLookups = (prop == "C16");
+    const bool wantExport = (prop == "C17");
+    const bool wantGrouping = (prop == "C08");
 
     // C07 / C06 before execution
     {
@@ -173,6 +269,50 @@ std::string propSingle(const FmmCase& c, const std::string& prop){
     if(wantArgs){ if(!ctx.errors.empty()) return "arguments: " + ctx.errors.front(); }
     else if(!ctx.errors.empty()) st.cls("other-oracle:args");
 
+    // ---- lookups (C16), export (C17), grouping independence (C08), staged == full (C12)
+    long nbQueries = 0, nbGapQueries = 0;
+    if(wantLookups){
+        std::string e = checkLookups(*b.tree, b.mt, c, nbQueries, nbGapQueries);
+        if(!e.empty()) return "lookup: " + e;
+    }
+    TreeValues tv;
+    if(wantExport || wantGrouping || prop == "C12") tv = collect(*b.tree, b.mt.leafOf.size());
+    if(wantExport){
+        std::string e = checkExport(*b.tree, b, tv);
+        if(!e.empty()) return "export: " + e;
+    }
+    long calls2 = -1;
+    if((wantGrouping && c.blockSize2 != 0) || (prop == "C12" && done == 63)){
+        Built b2;
+        const bool other = wantGrouping;
+        std::string s2 = build(c, other ? c.blockSize2 : c.blockSize, other ? c.envBlock2 : c.envBlock, other ? c.oneGroupPerParent2 : c.oneGroupPerParent, b2);
+        if(!s2.empty()) return s2;
+        probe::Ctx ctx2(c.salt);
+        ctx2.dim = Dim; ctx2.height = H; ctx2.base = H - 1;
+        ctx2.leafOf[0] = &b2.mt.leafOf; ctx2.rows[0] = &b2.in.rows;
+        std::unique_ptr<Algo> algo2;
+        if(c.lstop == -100) algo2.reset(new Algo(config, Kernel(&ctx2)));
+        else algo2.reset(new Algo(config, Kernel(&ctx2), long(c.lstop)));
+        algo2->execute(*b2.tree);
+        const TreeValues tv2 = collect(*b2.tree, b2.mt.leafOf.size());
+        if(tv2.cells.size() != tv.cells.size()) return "the two runs do not hold the same set of cells";
+        for(const auto& kv : tv.cells){
+            auto it = tv2.cells.find(kv.first);
+            if(it == tv2.cells.end()) return "cell L" + std::to_string(kv.first.first) + fh::coordStr(kv.first.second, Dim) + " missing in the second run";
+            if(it->second.first != kv.second.first) return "multipole of cell L" + std::to_string(kv.first.first) + fh::coordStr(kv.first.second, Dim) + " differs between the two runs";
+            if(it->second.second != kv.second.second) return "local of cell L" + std::to_string(kv.first.first) + fh::coordStr(kv.first.second, Dim) + " differs between the two runs";
+        }
+        for(size_t i = 0 ; i < tv.particles.size() ; ++i) if(tv.particles[i] != tv2.particles[i]) return "result of particle " + std::to_string(i) + " differs between the two runs";
+        if(wantGrouping){
+            const auto l1 = fh::normalizedLog(ctx, b.mt, false), l2 = fh::normalizedLog(ctx2, b2.mt, false);
+            std::string d = fh::diffLogs(l2, l1, Dim);
+            if(!d.empty()) return "multiset of elementary interactions differs between the groupings (second vs first): " + d;
+            if(!logErr.empty()) return "interactions: " + logErr;
+            if(!valueErr.empty()) return "values: " + valueErr;
+        }
+        calls2 = 0; for(int o = 0 ; o < probe::NbOps ; ++o) calls2 += ctx2.calls[o];
+    }
+
     // ---- classification for evidence
     const long leafGroups = long(b.tree->getParticleGroups().size());
     const bool hasM2L = ctx.elems[probe::OpM2L] > 0, hasP2P = ctx.elems[probe::OpP2P] > 0;
@@ -189,7 +329,14 @@ std::string propSingle(const FmmCase& c, const std::string& prop){
         if(ctx.calls[probe::OpM2M] > parents) st.cls("sibling-set-split-across-groups");
     }
     if(leafGroups >= 3) st.cls("leaf-groups>=3");
-    const bool nontrivial = multiGroupLevel && hasM2L && hasP2P;
+    bool nontrivial = multiGroupLevel && hasM2L && hasP2P;
+    if(prop == "C16"){ st.cls("queries", nbQueries); st.cls("queries-in-gaps-or-absent-in-range", nbGapQueries); nontrivial = (leafGroups >= 3) && nbGapQueries > 0; }
+    if(prop == "C17") nontrivial = long(b.mt.leafOf.size()) > NbData;
+    if(prop == "C08"){ long calls1 = 0; for(int o = 0 ; o < probe::NbOps ; ++o) calls1 += ctx.calls[o]; nontrivial = calls2 >= 0 && calls1 != calls2; if(nontrivial) st.cls("groupings-batch-differently"); }
+    if(prop == "C12"){ nontrivial = calls.size() >= 3 && H >= 3; st.cls("calls=" + std::to_string(calls.size())); st.cls("lstop=" + std::to_string(lstop)); }
+    if(prop == "C07") nontrivial = leafGroups >= 3;
+    if(prop == "C06") nontrivial = b.mt.leafOf.size() >= 2 && (b.mt.onFace > 0 || c.width[0] != 1.0);
+    if(prop == "C02"){ nontrivial = H - lstop >= 2 && ctx.elems[probe::OpM2L] > ctx.calls[probe::OpM2L]; }
     if(nontrivial) st.noteNontrivial(hc::hashCase(c), c);
     return "";
 }
@@ -202,6 +349,8 @@ pbt::GenCfg cfgFor(const std::string& prop, const hc::Args& a){
     g.maxN = int(a.getInt("maxn", Dim == 4 ? 120 : 250));
     g.maxNextra = NX;
     if(prop == "C12"){ g.histories = true; g.lstops = true; }
+    if(prop == "C08") g.twoGroupings = true;
+    if(prop == "C16"){ g.queries = true; }
     if(prop == "C01" || prop == "C02") g.lstops = (a.getInt("lstops", 1) != 0);
     return g;
 }
